@@ -11,6 +11,7 @@ import (
 	"context"
 	"errors"
 	"fmt"
+	"io"
 	"net"
 	"os"
 	"strings"
@@ -307,6 +308,14 @@ func c17Scenario(r *sim.Run) {
 				desc += " file-fault=" + simnet.FileShapes[k-1].Name
 				r.Cover("file-fault", simnet.FileShapes[k-1].Name)
 			}
+			// socket options the accept path may set on the accepted connection (none on the pinned tree):
+			// a failing setsockopt answers with an OpError that names both endpoints as well
+			if k := tp.Choose("sockopt-fault", len(simnet.SockoptShapes)+1); k > 0 {
+				for idx := 0; idx < 4; idx++ {
+					S.PlanFault("sockopt", idx, simnet.SockoptShapes[k-1].Make(S, "sockopt"))
+				}
+				desc += " sockopt-fault=" + simnet.SockoptShapes[k-1].Name
+			}
 			acceptDone := false
 			s.Spawn("accept.handler", func() {
 				w.cm.handleNewConn(w.rm, S)
@@ -408,6 +417,13 @@ func c17Scenario(r *sim.Run) {
 					S.PlanFault(p.site.op, p.site.idx, c17Shape(p.site.op, p.shape).Make(S, p.site.op))
 				}
 			}
+		}
+		if connecting != nil && connecting.ok && tp.Bool("layered-errors") {
+			// the connection a connecting transport hands back is a stack of its own (DTLS, SCTP,
+			// heartbeat layers): its errors arrive wrapped (%w) in the layers' own errors
+			connecting.wrap = true
+			desc += " layered-errors"
+			r.Probe("connecting_layered_errors")
 		}
 		if connecting != nil {
 			// the registration itself triggers the station's connection attempt
@@ -529,7 +545,25 @@ type c17Connecting struct {
 	apply func(S *simnet.Conn)
 	calls int
 	H, S  *simnet.Conn
+	wrap  bool // errors of the returned connection arrive wrapped in a layer's own error
 }
+
+// c17Layered is the connection of a layered transport: every error of the connection below comes
+// back wrapped (errors.Is / errors.As still see it), except a bare end of stream.
+type c17Layered struct{ net.Conn }
+
+func c17Wrap(err error) error {
+	if err == nil || err == io.EOF {
+		return err
+	}
+	return fmt.Errorf("transport stream: %w", err)
+}
+func (c c17Layered) Read(b []byte) (int, error)         { n, err := c.Conn.Read(b); return n, c17Wrap(err) }
+func (c c17Layered) Write(b []byte) (int, error)        { n, err := c.Conn.Write(b); return n, c17Wrap(err) }
+func (c c17Layered) Close() error                       { return c17Wrap(c.Conn.Close()) }
+func (c c17Layered) SetDeadline(t time.Time) error      { return c17Wrap(c.Conn.SetDeadline(t)) }
+func (c c17Layered) SetReadDeadline(t time.Time) error  { return c17Wrap(c.Conn.SetReadDeadline(t)) }
+func (c c17Layered) SetWriteDeadline(t time.Time) error { return c17Wrap(c.Conn.SetWriteDeadline(t)) }
 
 var c17ConnectErrors = []struct {
 	name string
@@ -589,6 +623,9 @@ func (t *c17Connecting) Connect(ctx context.Context, reg transports.Registration
 		t.apply(S)
 	}
 	t.H, t.S = H, S
+	if t.wrap {
+		return c17Layered{S}, nil
+	}
 	return S, nil
 }
 
